@@ -22,6 +22,14 @@ def run_canary(c):
         path = os.path.join(tmp, 'repo', c['file'])
         s = open(path).read()
         for ed in c['edits']:
+            if ed.get('all'):
+                # rename: every occurrence as a whole word
+                import re
+                pat = re.compile(r'\b' + re.escape(ed['old']) + r'\b')
+                if not pat.search(s):
+                    return dict(c, outcome='STALE', detail='pattern does not occur: %r' % ed['old'])
+                s = pat.sub(ed['new'], s)
+                continue
             if s.count(ed['old']) != 1:
                 return dict(c, outcome='STALE', detail='pattern occurs %d times: %r' % (s.count(ed['old']), ed['old'][:60]))
             s = s.replace(ed['old'], ed['new'])
